@@ -364,6 +364,18 @@ class History:
         for m in self.monitors:
             self.report(m.after_probe(self, s, s2, i, i.vehicle_id))
 
+    def try_apply(self, sim, instruction):
+        """one instruction applied to `sim` on the side (no events reach the monitored history); None when HIVE raised"""
+        from nrel.hive.reporting.reporter import Reporter
+        from nrel.hive.state.simulation_state.update.step_simulation_ops import apply_instructions
+
+        try:
+            with quiet():
+                return apply_instructions(sim, self.env.set_reporter(Reporter()), (instruction,))
+        except Exception as exc:
+            self._crashed(exc)
+            return None
+
     def _op_probe_batch(self, directives) -> None:
         """apply several instructions (at most one per vehicle) at once, and separately one at a time in the same
         order; monitors with a `batch` method compare the two results"""
@@ -425,11 +437,11 @@ class History:
         import h3
         from nrel.hive.model.request.request import Request
         from nrel.hive.state.simulation_state import simulation_state_ops as ops
-        from hv.worlds import SITE_POOL
+        from hv.worlds import _site
 
         sites = self.spec["sites"]
-        og = h3.geo_to_h3(*SITE_POOL[sites[o_sel % len(sites)]], 15)
-        dg = h3.geo_to_h3(*SITE_POOL[sites[d_sel % len(sites)]], 15)
+        og = h3.geo_to_h3(*_site(self.spec, o_sel % len(sites)), 15)
+        dg = h3.geo_to_h3(*_site(self.spec, d_sel % len(sites)), 15)
         fl = self.spec.get("fleet_ids") or []
         self._injected = getattr(self, "_injected", 0) + 1
         r = Request.build(f"x{self._injected}", og, dg, self.sim.road_network, self.sim.sim_time, 1, False, fleet_id=fl[o_sel % len(fl)] if fl else None, value=5.0)
